@@ -58,6 +58,17 @@ Example npz_missing_member_nonvacuous :
              /\ (exists ms1, save_members Z w_gcxs_1d = Ok ms1 /\ In s_axes (map fst ms1)).
 Proof. eexists. split; [reflexivity | split; [cbn; tauto | eexists; split; [reflexivity | cbn; tauto]]]. Qed.
 
+(* an archive whose index pointer has the wrong length is rejected (GCXS.__init__ checks it since /repo 9bee746) *)
+Theorem npz_bad_indptr_rejected :
+  forall (V : Type) (k : klass) (g : gcxs V) (ca ptr' : list Z),
+    gcxs_wf V k g = true -> g_axes g = Some ca ->
+    len ptr' =? compressed_rows (g_shape g) ca + 1 = false ->
+    exists e,
+      load_members V [(s_data, FData (g_data g)); (s_shape, FInts (g_shape g)); (s_fill, FScalar (g_fill g));
+                      (s_indices, FInts (g_indices g)); (s_indptr, FInts ptr'); (s_axes, FInts ca)] = Raise e.
+Proof. exact npz_bad_indptr_rejected_proof. Qed.
+Print Assumptions npz_bad_indptr_rejected.
+
 (* ---- the container layer, under the oracle assumption on numpy / zipfile (a hypothesis, not an axiom) *)
 Theorem npz_file_roundtrip :
   forall (V bytes : Type) (np_savez : bool -> members V -> bytes) (np_load : bytes -> file V),
